@@ -221,3 +221,29 @@ def register_array_build(src):
         Case('fails', 'raise', lambda pre: t.TRUE, ensures=_array_build_bad, modifies=['stream']),
     ], loops={'for (i, e) in enumerate(obj)': LoopSpec(_build_inv, tags=T)}, tags=T, sequential_build=False,
         requires=lambda pre: [('the-supplied-value-is-a-list-like-sequence', t.and_(t.app('dyn_sized', t.BOOL, pre['obj'].t), t.app('(_ is VOpq)', t.BOOL, pre['obj'].t)))])
+
+
+# ================================================================================================ sizeof of the member-list composites
+prelude.define('zsum', """(define-fun-rec zsum ((sl Int) (k Int) (H (Array Int (Array String Val))) (D (Array Int (Array String Bool))) (c Int)) Int
+  (ite (<= k 0) 0 (+ (zsum sl (- k 1) H D c) (Z_val (sl_at sl (- k 1)) H D c))))""", deps=['Z_val', 'sl_at'])
+
+
+def _sum_size_ok(pre, post):
+    snap = post.st.ghost.get('first_sub_ctx')
+    sl = pre.self.fields['subcons'].ident
+    n = t.app('sl_len', t.INT, sl)
+    if snap is None:
+        if not getattr(post.eng.models, 'ghost_mode', False):
+            # no member was asked (not even symbolically): only possible for an empty member list
+            return [('size-of-an-empty-member-list-is-zero', size_is(post, t.ZERO), ('C05',))]
+        snap = (fresh('scope', t.INT), fresh('scope_H', 'Heap'), fresh('scope_D', 'Dom'))
+    c1, H1, D1 = snap
+    return [('size-is-the-sum-of-the-member-sizes-in-the-nested-scope', size_is(post, t.app('zsum', t.INT, sl, n, H1, D1, c1)), ('C05', 'C03'))]
+
+
+def register_sum_sizes(src):
+    for cls in ('Struct', 'Sequence', 'FocusedSeq', 'LazyStruct'):
+        fcontract(cls, '_sizeof', [
+            Case('ok', 'return', lambda pre: t.TRUE, ensures=_sum_size_ok, rkind=rk_dyn),
+            Case('no-size', 'raise', lambda pre: t.TRUE),
+        ], tags=('C05', 'C03'))
